@@ -5,7 +5,7 @@ CHECK = {
     "srcs": GRID,
     "flavours": ["asan"],
     "quick": {"shards": 4, "timeout": 900},
-    "thorough": {"shards": 16, "timeout": 3600},
+    "thorough": {"shards": 16, "timeout": 7200},
     "required_categories": ["f2", "d2", "f3", "d3", "ctor_symmetric_range", "ctor_interval", "res_dyadic",
                             "grid_1000_to_2000_cells", "grid_offset_from_frame_origin",
                             "ray_generic", "ray_coincident", "ray_same_cell", "ray_axis_aligned", "ray_planar",
@@ -33,7 +33,7 @@ CHECK = {
             "next() loop, after one of {nothing, 1..40 stray next(), a stale cast(), setEndPoint only, setOriginPoint "
             "only}; non-trivial = not (double 2D range-constructor grid with only generic rays and no disturbance), "
             "i.e. outside what the unit tests cast",
-    "level_text": "exploration: the real ray caster is executed on 6e3 (quick) / 8e5 (thorough) generated grids with "
+    "level_text": "exploration: the real ray caster is executed on 8e3 (quick) / 8e5 (thorough) generated grids with "
                   "~12 / ~17 casts each on one reused caster; every returned cell sequence is checked exactly (first cell, "
                   "L1+1 cells, face-adjacent steps, in-bounds indexes, accessors, bitwise equality with a fresh caster) and "
                   "geometrically in long double (each visited cell's closed extent meets the segment, last cell contains the "
